@@ -165,9 +165,12 @@ func FuzzC07Xattr(f *testing.F) {
 			}
 			return
 		}
+		var parsed any
+		representable := json.Unmarshal(val, &parsed) == nil // (a number beyond float64 is valid JSON that Go cannot hold)
 		if err != nil {
-			// valid JSON may still be refused with macros (value not an object / parent missing); nothing may change then
-			if !useMacro {
+			// valid JSON may still be refused with macros (value not an object / parent missing) or
+			// because a number in it does not fit a float64; nothing may change then
+			if !useMacro && representable {
 				t.Fatalf("valid JSON xattr value %q refused: %v", val, err)
 			}
 			if gcas != cur || after["_fz"] != nil {
@@ -177,6 +180,9 @@ func FuzzC07Xattr(f *testing.F) {
 		}
 		if cas != gcas {
 			t.Fatalf("UpdateXattrs returned CAS %#x, document has %#x", cas, gcas)
+		}
+		if !representable {
+			return // accepted although Go cannot parse it: what is read back is not pinned
 		}
 		want := string(val)
 		if useMacro {
@@ -207,6 +213,10 @@ func FuzzC18Path(f *testing.F) {
 		}
 		if len(val) > 0 && !json.Valid(val) {
 			t.Skip()
+		}
+		var probe any
+		if json.Unmarshal(doc, &probe) != nil || (len(val) > 0 && json.Unmarshal(val, &probe) != nil) {
+			t.Skip() // valid JSON that Go cannot hold (a number beyond float64): outside the reference editor's domain
 		}
 		ds := fuzzDS(t)
 		key := fmt.Sprintf("s%d", fuzzSerial%50)
